@@ -1,4 +1,4 @@
-use crate::base::{Bytes, BytesCow, SourceLocation, eq_case_insensitive};
+use crate::base::{Bytes, BytesCow, SourceLocation};
 use crate::errors::RewritingError;
 use crate::html::escape_double_quotes_only;
 use crate::parser::AttributeBuffer;
@@ -197,7 +197,9 @@ impl<'i> Attributes<'i> {
     ) -> Option<R> {
         let name = Attribute::name_from_string(name.to_ascii_lowercase(), self.encoding).ok()?;
         let check = move |attr: &Attribute<'_>| {
-            if eq_case_insensitive(&attr.name.as_ref(), &name.as_ref()) {
+            // NOTE: in multi-byte encodings the encoded name may contain bytes that look like
+            // upper case ASCII letters, so neither side is known to be lowercased bytewise.
+            if attr.name.as_ref().eq_ignore_ascii_case(&name.as_ref()) {
                 Some(map(attr))
             } else {
                 None
@@ -232,7 +234,7 @@ impl<'i> Attributes<'i> {
         let items = self.as_mut_vec();
         match items
             .iter_mut()
-            .find(|attr| eq_case_insensitive(&attr.name.as_ref(), &name.as_ref()))
+            .find(|attr| attr.name.as_ref().eq_ignore_ascii_case(&name.as_ref()))
         {
             Some(attr) => attr.set_value(value),
             None => {
@@ -255,7 +257,7 @@ impl<'i> Attributes<'i> {
         };
         let items = self.as_mut_vec();
         let len_before = items.len();
-        items.retain(|attr| !eq_case_insensitive(&attr.name.as_ref(), &name.as_ref()));
+        items.retain(|attr| !attr.name.as_ref().eq_ignore_ascii_case(&name.as_ref()));
         len_before != items.len()
     }
 
